@@ -1070,3 +1070,74 @@ Proof.
   - apply coherent_presentM. now apply coherent_b_sound.
   - now apply validate_sound.
 Qed.
+
+(** ** the two input families on which the matcher is not coherent (findings) *)
+From RecordUpdate Require Import RecordSet.
+Import RecordSetNotations.
+
+Definition wflag (i : id) (l : bytes) : arg := arg_new i <| a_long := Some l |> <| a_action := Some ASetTrue |>.
+Definition i_a : id := [97]. Definition i_b : id := [98]. Definition i_c : id := [99].
+Definition i_g : id := [103]. Definition i_x : id := [120].
+Definition dd (l : bytes) : bytes := 45 :: 45 :: l.
+
+(** F1: [a] overrides the *group* [g]; [b] is a member of [g]; [c] conflicts with [g].
+    `--bb --aa --cc`: the occurrence of [a] removes the entry of [g] (not its member [b]),
+    so the conflict of [c] with [g] is not seen. *)
+Definition f1_cmd : cmd :=
+  cmd_new [112]
+    <| c_args := [wflag i_a [97;97] <| a_overrides := [i_g] |>; wflag i_b [98;98];
+                  wflag i_c [99;99] <| a_blacklist := [i_g] |>] |>
+    <| c_groups := [group_new i_g <| g_args := [i_b] |> <| g_multiple := true |>] |>.
+Definition f1_toks : list bytes := [dd [98;98]; dd [97;97]; dd [99;99]].
+
+(** F2: [a] is the only member of [g]; [c] overrides [a]; [x] is required unless [g] is present.
+    `--aa --cc`: [a] is removed, the entry of [g] stays, [x] is not demanded
+    (`--cc` alone is rejected with MissingRequiredArgument). *)
+Definition f2_cmd : cmd :=
+  cmd_new [112]
+    <| c_args := [wflag i_a [97;97]; wflag i_c [99;99] <| a_overrides := [i_a] |>;
+                  wflag i_x [120;120] <| a_r_unless := [i_g] |>] |>
+    <| c_groups := [group_new i_g <| g_args := [i_a] |> <| g_multiple := true |>] |>.
+Definition f2_toks : list bytes := [dd [97;97]; dd [99;99]].
+
+Definition run_level (c0 : cmd) (toks : list bytes) : res ps :=
+  let c := build_self c0 in get_matches_with (S (S (depth c))) c toks ps_new.
+
+Lemma coherence_refuted_f1 :
+  valid f1_cmd = true /\
+  exists st, run_level f1_cmd f1_toks = ROk st
+             /\ coherent_b (build_self f1_cmd) (mt st) = false
+             /\ check_explicit (mt st) i_b PIsPresent = true      (* a member of g is present ... *)
+             /\ check_explicit (mt st) i_c PIsPresent = true      (* ... together with c, which conflicts with g *)
+             /\ check_explicit (mt st) i_g PIsPresent = false.
+Proof. split; [vm_compute; reflexivity|]. eexists. split; [vm_compute; reflexivity|]. vm_compute. repeat split. Qed.
+
+Lemma coherence_refuted_f2 :
+  valid f2_cmd = true /\
+  exists st, run_level f2_cmd f2_toks = ROk st
+             /\ coherent_b (build_self f2_cmd) (mt st) = false
+             /\ check_explicit (mt st) i_g PIsPresent = true      (* the group's entry is explicit ... *)
+             /\ check_explicit (mt st) i_a PIsPresent = false     (* ... its only member is not ... *)
+             /\ check_explicit (mt st) i_x PIsPresent = false     (* ... and x (required unless g) is absent *)
+  /\ (exists e st', run_level f2_cmd [dd [99;99]] = RErr e st' /\ e_kind e = EMissingRequiredArgument).
+Proof.
+  split; [vm_compute; reflexivity|]. eexists. split; [vm_compute; reflexivity|].
+  vm_compute. repeat split. do 2 eexists. split; reflexivity.
+Qed.
+
+(** the member-based specification itself fails on the two witnesses (so the coherence
+    hypothesis of [validate_sound_members] cannot be dropped): stated for F1 *)
+Lemma relationsM_refuted_f1 :
+  exists st, run_level f1_cmd f1_toks = ROk st /\ ~ RelationsM (build_self f1_cmd) (mt st).
+Proof.
+  eexists. split; [vm_compute; reflexivity|]. intros R.
+  assert (Hc : arg_of (build_self f1_cmd) i_c (wflag i_c [99;99] <| a_blacklist := [i_g] |>
+               <| a_num := Some r_empty |> <| a_vp := Some VPBool |>
+               <| a_default := [s_false] |> <| a_default_missing := [s_true] |>)).
+  { vm_compute. reflexivity. }
+  destruct (rel_conflicts _ _ _ R i_c _ i_g Hc) as [H _].
+  - vm_compute. eexists. split; [reflexivity | discriminate].
+  - vm_compute. exists i_b. split; [now left|]. eexists. split; [reflexivity | discriminate].
+  - discriminate.
+  - apply H. left. eexists. split; [exact Hc|]. left. now left.
+Qed.
